@@ -1535,6 +1535,8 @@ class Executor:
                     v = self.read(st, root, path[:n])
                 except Undecided:
                     break
+                if isinstance(v, SymV) and v.ty.get("k") == "adt" and v.ty.get("def") in self.struct_templates:
+                    v = self.expand_sym(v)          # a struct known only as a symbol (standalone analysis of a method)
                 if n < len(path):
                     if isinstance(v, Agg) and v.kind == "adt" and v.name in self.struct_templates:
                         key = (root, tuple((s_[0], s_[1]) for s_ in path[:n]))
@@ -1741,6 +1743,8 @@ class Executor:
                                 except Undecided:
                                     ok = False
                                     break
+                                if isinstance(bv, SymV) and bv.ty.get("def") == sv.name:
+                                    bv = self.expand_sym(bv)
                                 if not (isinstance(bv, Agg) and bv.name == sv.name):
                                     ok = False
                                     break
@@ -2146,6 +2150,9 @@ class Executor:
                     for it in impl["items"]:
                         if it.get("trait_item") == t["def"] and "ty" in it:
                             return self.normalize(T.subst(it["ty"], binds))
+            ci = self.core_iter_item(t, self_ty)
+            if ci is not None:
+                return ci
             return {"k": "proj", "def": t["def"], "name": t["name"], "trait": t.get("trait"), "args": args}
         if k == "adt":
             return {"k": "adt", "def": t["def"], "args": [self.normalize(a) for a in t["args"]]}
@@ -2158,6 +2165,26 @@ class Executor:
         if k == "slice":
             return {"k": "slice", "ty": self.normalize(t["ty"])}
         return t
+
+    def core_iter_item(self, t, self_ty):
+        """`<X as Iterator>::Item` for the core iterator types whose item type is part of their documented signature
+        (needed inside generic code such as the prelude, where the compiler left the projection unnormalised)"""
+        if t.get("trait") != "core::iter::traits::iterator::Iterator" or t.get("name") != "Item" or not self_ty or self_ty.get("k") != "adt":
+            return None
+        d = self_ty["def"]
+        ta = [a for a in self_ty.get("args", []) if a.get("k") not in ("lifetime", "const")]
+        if d == "core::slice::iter::Iter" and ta:
+            return {"k": "ref", "mut": False, "ty": ta[0]}
+        if d == "core::slice::iter::IterMut" and ta:
+            return {"k": "ref", "mut": True, "ty": ta[0]}
+        if d == "core::array::iter::IntoIter" and ta:
+            return ta[0]
+        if d in ("core::ops::range::Range", "core::ops::range::RangeInclusive") and ta:
+            return ta[0]
+        if d in ("core::iter::adapters::copied::Copied", "core::iter::adapters::cloned::Cloned") and ta:
+            inner = self.normalize({"k": "proj", "def": t["def"], "name": "Item", "trait": t["trait"], "args": [ta[0]]})
+            return inner["ty"] if inner.get("k") == "ref" else None
+        return None
 
     def find_impl(self, trait, targs):
         """select the crate-local impl of `trait` for trait args `targs` (Self first).
@@ -2530,7 +2557,7 @@ class Executor:
         return [(st, ret)]
 
     # ================================================================ entry points
-    def run_entry(self, rec, subst=None, args=None, arg_names=None, assume=None, init_mem=None):
+    def run_entry(self, rec, subst=None, args=None, arg_names=None, assume=None, init_mem=None, assume_cond=None):
         """symbolically execute body `rec` from a fresh state. args: optional list of values
         (None entries are replaced by symbols named after the parameter)."""
         self.terminated = []
@@ -2560,6 +2587,8 @@ class Executor:
             st.mem[r] = v
         for q in (assume or []):
             st.facts.add_fact_ge0(q)
+        for g, q in (assume_cond or []):
+            st.facts.add_conditional(g, q)       # a precondition that holds under a guard (e.g. an accumulator invariant)
         outs, _ = self.run_blocks(fr, {0: [st]})
         res = Result()
         res.entry = rec["id"]
